@@ -10,7 +10,7 @@ Extraction "model.ml"
   pes_C0 pes_C0OrSpace pes_Fragment pes_Query pes_SpecialQuery pes_Path pes_UserInfo pes_Host
   pes_LaxPath pes_LaxQuery pes_RepeatedQuery pes_HostDecode
   RuneShouldBeEncoded RuneNotInSet isURLCodePoint pes_set pes_clear
-  Parse ParseRef UrlParse history obs_pres obs_cres ProfileParse ProfileParseRef direct
+  Parse ParseRef UrlParse history hrun obs_pres obs_cres ProfileParse ProfileParseRef direct
   parseHost parseIPv4 parseIPv6 ipv6_parse IPv6String IPv4String parseOpaqueHost endsInANumber parseIPv4Number_nonempty
   ToASCII PercentEncodeString DecodePercentEncoded percentEncodeBytes decodeEncode repeatedDecode repeatedDecode1
   sp_init sp_string trim_c0space remove_tabnl obs_url verr_obs empty_url
